@@ -151,7 +151,7 @@ def compare_case(d, want=("rows", "obj"), full_alphabet=True, return_rows=False)
         return res
     for a in ref_rows:
         a["fp"] = np.array(a["fp"])
-    missing, extra = NL.match_rows(rows_real, ref_rows)
+    missing, extra = NL.match_rows(rows_real, ref_rows, prop_origins=(("dyn",) if d.get("scales") else ()))
     # classify extra rows: time-only rows belong to the grid/free-time properties
     tcoords = time_coords(nlp, pts[0])
     res.time_coords = tcoords
@@ -227,3 +227,47 @@ def compare_case(d, want=("rows", "obj"), full_alphabet=True, return_rows=False)
         res.trajs = trajs
         res.real = r
     return res
+
+
+LABEL_KEYS = ("X", "U", "Xi", "Xr", "Zr", "vg", "vc")
+
+
+def label_solve(nlp, q, keys=LABEL_KEYS, base=None):
+    """decision vector of `nlp` whose public read-backs equal the labelled values q (affine labelling,
+    solved exactly from the enumerated basis); returns (w, max residual)"""
+    keys = [k for k in keys if k in nlp.rb_names and k in q]
+    ex = np.zeros(nlp.n_extra)
+    stack = lambda qq: np.concatenate([np.asarray(qq[k], dtype=float).reshape(-1, order="F") for k in keys])
+    w0 = np.zeros(nlp.nx) if base is None else base.copy()
+    b0 = stack(nlp.read(w0, extra=ex))
+    A = np.zeros((b0.size, nlp.nx))
+    for i in range(nlp.nx):
+        w = w0.copy(); w[i] += 1.0
+        A[:, i] = stack(nlp.read(w, extra=ex)) - b0
+    target = stack(q)
+    dw, *_ = np.linalg.lstsq(A, target - b0, rcond=None)
+    w = w0 + dw
+    err = float(np.max(np.abs(stack(nlp.read(w, extra=ex)) - target))) if target.size else 0.0
+    return w, err
+
+
+def set_times(nlp, w, T=None, t0=None):
+    """move only the coordinates that carry T / t0 so that value(T)=T, value(t0)=t0"""
+    ex = np.zeros(nlp.n_extra)
+    def tt(w_):
+        q = nlp.read(w_, extra=ex)
+        return np.array([q["T"].reshape(-1)[0], q["t0"].reshape(-1)[0]])
+    b0 = tt(w)
+    cols = []; idx = []
+    for i in range(nlp.nx):
+        w1 = w.copy(); w1[i] += 1.0
+        c = tt(w1) - b0
+        if np.max(np.abs(c)) > 1e-12:
+            cols.append(c); idx.append(i)
+    if not idx:
+        return w, b0
+    A = np.array(cols).T
+    target = np.array([b0[0] if T is None else T, b0[1] if t0 is None else t0])
+    dw, *_ = np.linalg.lstsq(A, target - b0, rcond=None)
+    w2 = w.copy(); w2[idx] += dw
+    return w2, tt(w2)
